@@ -804,8 +804,16 @@ def group_by(table: Table, *cols: Col | ColName | str, add=False) -> Pipeable:
         if isinstance(col, Col) and col._uuid not in table._cache.uuid_to_name:
             raise ValueError(f"cannot group by non-selected column `{col.ast_repr()}`")
 
+    # a column named several times (or, with `add=True`, one the table is grouped by already) counts once
+    seen = set(table._cache.partition_by) if add else set()
+    group_cols = []
+    for col in (preprocess_arg(col, table) for col in cols):
+        if col._uuid not in seen:
+            seen.add(col._uuid)
+            group_cols.append(col)
+
     new = copy.copy(table)
-    new._ast = GroupBy(table._ast, [preprocess_arg(col, table) for col in cols], add)
+    new._ast = GroupBy(table._ast, group_cols, add)
 
     return new
 
